@@ -144,6 +144,11 @@ pub fn trace_facts(r: &RunResult, o: &mut Outcome) {
 }
 
 pub fn observable_digest(r: &RunResult) -> u64 {
+    if threads_seen(&r.trace) {
+        // A compiler with threads of its own interleaves its seam calls as the OS pleases: executions are compared
+        // by verdict only. 0 = "do not compare" (see the determinism audit and the replay confirmation).
+        return 0;
+    }
     let mut f = Fnv::default();
     f.update_u64(r.trace_digest);
     f.update(&r.stdout);
@@ -498,7 +503,7 @@ pub fn run(ws: &Ws, prop: &dyn Property, opts: &Opts) -> Result<i32, String> {
                         match prop.evaluate(&exec, &case) {
                             Ok(o2) => {
                                 local.audits += 1;
-                                if o2.digest != o.digest {
+                                if o2.digest != o.digest && o2.digest != 0 && o.digest != 0 {
                                     harness_errors.lock().unwrap().push(format!("determinism audit: case {index} gave two different executions"));
                                     let _ = std::fs::write(ws.verif.join("replays").join(format!("{}-nondeterministic-{index}.json", prop.id())), serde_json::to_vec_pretty(&json!({"case": case})).unwrap());
                                     stop.store(true, Ordering::Relaxed);
@@ -566,8 +571,10 @@ pub fn run(ws: &Ws, prop: &dyn Property, opts: &Opts) -> Result<i32, String> {
             ok &= o.violations.iter().any(|v| &v.class == class);
             digests.push(o.digest);
         }
-        if !ok || digests[0] != digests[1] {
-            return Err(format!("candidate violation '{class}' (case {index}) does not replay deterministically after minimisation"));
+        if !ok || (digests[0] != digests[1] && digests[0] != 0 && digests[1] != 0) {
+            let path = ws.verif.join("replays").join(format!("{}-unreproducible-{index}.json", prop.id()));
+            let _ = std::fs::write(&path, serde_json::to_vec_pretty(&json!({"class": class, "detail": viol.detail, "case": case, "minimised": min_case})).unwrap());
+            return Err(format!("candidate violation '{class}' (case {index}: {}) does not replay deterministically after minimisation; kept as {}", viol.detail, path.display()));
         }
         let doc = json!({
             "property": prop.id(),
